@@ -438,11 +438,35 @@ pub fn make_case(ctx: &ShardCtx, i: u64) -> Case {
     }
     // pairs of stanzas with the *same query shape* on the same node: their matches are met in
     // stanza order, so every permutation really is another schedule
-    if r.chance(1, 6) {
+    if r.chance(1, 4) {
         while stanzas.len() > 3usize.max(protected) {
             stanzas.pop();
         }
-        match r.below(4) {
+        match r.below(6) {
+            4 => {
+                // an inherited name defined twice on one node (a duplicate in every order, not
+                // "the later one wins") and read from that node
+                prog.inherits.push("dupi".into());
+                stanzas.push(st("(module) @ia", vec![Stmt::Let(VarRef::Scoped(cap("ia"), "dupi".into()), Expr::Str("first".into()))]));
+                stanzas.push(st("(module) @ib", vec![Stmt::Let(VarRef::Scoped(cap("ib"), "dupi".into()), Expr::Str("second".into()))]));
+                stanzas.push(st("(module) @ic", vec![Stmt::Node(VarRef::Local("dn".into())), Stmt::AttrNode(Expr::Var("dn".into()), vec![("got".into(), sc("ic", "dupi"))])]));
+            }
+            5 => {
+                // two edges from one node to nodes created by other stanzas (so that their
+                // numbering depends on the order) and an attribute on one of the edges
+                stanzas.push(st("(module) @ea", vec![Stmt::Node(VarRef::Scoped(cap("ea"), "ta".into()))]));
+                stanzas.push(st("(module) @eb", vec![Stmt::Node(VarRef::Scoped(cap("eb"), "tb".into()))]));
+                let which = if r.chance(1, 2) { "ta" } else { "tb" };
+                stanzas.push(st(
+                    "(module) @ec",
+                    vec![
+                        Stmt::Node(VarRef::Local("from".into())),
+                        Stmt::Edge(Expr::Var("from".into()), sc("ec", "ta")),
+                        Stmt::Edge(Expr::Var("from".into()), sc("ec", "tb")),
+                        Stmt::AttrEdge(Expr::Var("from".into()), sc("ec", which), vec![("k".into(), Expr::Int(1))]),
+                    ],
+                ));
+            }
             3 => {
                 // the same variable defined twice on one node, once through a capture and once
                 // through a local holding the node: a duplicate in every order
